@@ -122,7 +122,26 @@ def other_operand(kind):
     return {'str': 'x', 'none': None, 'complex': 1 + 2j, 'dict': {}, 'set': {1.0}}[kind]
 
 
+def guarded(fn):
+    """run implementation code under an address-space cap: a defective implementation that asks numpy for a grid of
+    1e10 points must give MemoryError (reported as a failing input), not take the machine down"""
+    import resource
+    soft, hard = resource.getrlimit(resource.RLIMIT_AS)
+    cap = 8 * 2 ** 30
+    if hard != resource.RLIM_INFINITY:
+        cap = min(cap, hard)
+    resource.setrlimit(resource.RLIMIT_AS, (cap, hard))
+    try:
+        return fn()
+    finally:
+        resource.setrlimit(resource.RLIMIT_AS, (soft, hard))
+
+
 def run_impl(c):
+    return guarded(lambda: run_impl_(c))
+
+
+def run_impl_(c):
     op = c['op']
     with np.errstate(all='ignore'):
         if op == 'ctor':
@@ -897,6 +916,10 @@ def replay_known(f):
 
 # ------------------------------------------------------------------ labelled tests: spline interpolation against scipy itself
 def extra(tier, rng):
+    return guarded(lambda: extra_(tier, rng))
+
+
+def extra_(tier, rng):
     import scipy.interpolate
     lentil = C.import_lentil()
     viol, n = [], 0
